@@ -31,6 +31,8 @@ def _norm_str(s):
 def norm_term(t):
     if isinstance(t, str):
         return _norm_str(t)
+    if isinstance(t, tuple) and len(t) == 2 and t[0] == "loop":
+        return ("loop",)          # loop-carried value: the local's name is irrelevant
     if isinstance(t, frozenset):
         return frozenset(norm_term(x) for x in t)
     if isinstance(t, tuple):
@@ -58,6 +60,11 @@ def summary(ctx, f):
             if _is_logging(c) or id(c) in in_raise:
                 continue
             fn = unawait(c.func)
+            if isinstance(fn, ast.Attribute) and fn.attr == "run_in_executor" and len(c.args) >= 2 and isinstance(c.args[0], ast.Constant) and c.args[0].value is None:
+                c = ast.copy_location(ast.Call(func=c.args[1], args=list(c.args[2:]), keywords=[]), c)     # == fn(*args)
+                fn = unawait(c.func)
+            if (isinstance(fn, ast.Name) and fn.id in ("get_running_loop", "get_event_loop")) or (isinstance(fn, ast.Attribute) and fn.attr in ("get_running_loop", "get_event_loop")):
+                continue
             if isinstance(fn, ast.Name) and fn.id in PURE_BUILTINS and fn.id not in f.params:
                 continue
             if isinstance(fn, ast.Attribute) and fn.attr in ("format", "encode", "decode", "join", "get", "items", "values", "keys", "empty") and not (ctx.cg.site(c) and ctx.cg.site(c).callees):
@@ -75,8 +82,10 @@ def summary(ctx, f):
             elif cs is not None and cs.ext:
                 name = cs.ext
             else:
-                name = "." + (call_attr(c) or "?")
-            recv = (T.term(f, n, fn.value),) if isinstance(fn, ast.Attribute) and not (cs is not None and cs.ext) else ()
+                x = ctx.cg.ext_name(f.mod, fn, f) if cs is None and isinstance(fn, (ast.Name, ast.Attribute)) else None
+                pf = ctx.cg._func_of_name(f.mod, fn.id) if cs is None and isinstance(fn, ast.Name) else None
+                name = x or (pf.qualname if pf is not None else "." + (call_attr(c) or "?"))
+            recv = (T.term(f, n, fn.value),) if isinstance(fn, ast.Attribute) and not (cs is not None and cs.ext) and not name.count(".") > 1 and name.startswith(".") else ()
             args = tuple(T.term(f, n, a) for a in c.args if not isinstance(a, ast.Starred))
             kws = tuple(sorted((k_.arg, T.term(f, n, k_.value)) for k_ in c.keywords if k_.arg))
             if poly:
@@ -146,9 +155,20 @@ def summary(ctx, f):
                 ops = tuple(T.term(f, n, eval_dump(d)) for d in fa[0][1:])
             except Exception:   # noqa
                 ops = fa[0][1:]
+            pol = fa[1]
+            if fa[0][0] == "eq" and len(ops) == 2:
+                # a command drawn from a two-element expected set: `cmd != A` is `cmd == B`
+                for x, y in ((ops[0], ops[1]), (ops[1], ops[0])):
+                    if isinstance(x, tuple) and x[0] == "c" and isinstance(x[1], bytes) and isinstance(y, tuple) and y[0] == "proj" and y[2] == 0 and y[1][0] == "call":
+                        for a_ in y[1][2]:
+                            if isinstance(a_, tuple) and a_[0] == "c" and isinstance(a_[1], tuple) and len(a_[1]) == 2 and x[1] in a_[1] and all(isinstance(z, bytes) for z in a_[1]):
+                                lo = min(a_[1])
+                                if x[1] != lo:
+                                    ops = (("c", lo), y)
+                                    pol = not pol
             if fa[0][0] in ("eq", "is"):
                 ops = tuple(sorted(ops, key=repr))
-            out.add(norm_term((fa[0][0], ops, fa[1])))
+            out.add(norm_term((fa[0][0], ops, pol)))
         return frozenset(out)
 
     effect_nodes = {}
